@@ -1,22 +1,25 @@
 import AkVerif.Model.Proto
-import AkVerif.Model.CliGraph
+import AkVerif.Model.CliArgs
 import AkVerif.Gen.C19
 open Ak Ak.Proto CliGraph
 
 /-! Line protocol of C19 (stateful: one `ArgParser` per case).
 
 ```
-new <default|-> <decl>...          -> ok | err AssertionError
+new <sw> <default|-> <decl>...     -> ok | err AssertionError     (sw = three bits: _no_log, _no_log_file, _help_if_no_args)
+single <sw>                        -> ok                          (ArgParser without commands)
 deps                               -> deps <name>:<dep>/<dep> ...        (internal, diagnostic)
-opt <parser|*> <flag|value|pos> <string>...   -> ok | err ArgumentError | err ValueError
+opt <parser|*> <flag|value|pos1|pos?|pos*|pos+> <string>...   -> ok | err ArgumentError | err ValueError | err AssertionError
 parse <token>...                   -> ok <dest>=<value> ... | err SystemExit <code> | err <Exception>
+parse2 <token>...                  -> <reply of parse> | <reply of a second parse_args with the same list object>
+lst <token>...                     -> L:<the caller's list after parse_args>                        (diagnostic)
 ```
 strings are comma separated code points. After a failed `opt` the parser object is abandoned
 (`poisoned`); without a successfully built parser every line answers `no-parser`. -/
 
 inductive DSt where
   | empty
-  | ready (st : St)
+  | ready (ap : ArgP)
   | poisoned
 
 def cfg : Cfg := Gen.C19.cfg
@@ -37,7 +40,7 @@ def optStringOk (pos : Bool) (s : Name) : Bool :=
     | _ => false
 
 def tokOk (t : Name) : Bool :=
-  t.all (fun c => c.isAlphanum || c = '-' || c = '=' || c = '_') && t != ['-', '-']
+  t.all (fun c => c.isAlphanum || c = '-' || c = '=' || c = '_')
 
 def ltName : Name → Name → Bool
   | [], [] => false
@@ -70,36 +73,61 @@ def showFail : Fail → String
 
 def parseStrs (l : List String) : Option (List Name) := l.mapM parseCps
 
+def parseSw (t : String) : Option (Bool × Switches) :=
+  match t.toList with
+  | [a, b, c] =>
+    if [a, b, c].all (fun x => x = '0' || x = '1') then
+      some (a = '1', { noLogFile := b = '1', helpIfNoArgs := c = '1' })
+    else none
+  | _ => none
+
+def showRes : Except Fail Ns → String
+  | .ok ns => "ok " ++ showNs ns
+  | .error e => showFail e
+
+def showList (l : List (Option Name)) : String :=
+  "L:" ++ "/".intercalate (l.map fun x => match x with | some n => showCps n | none => "N")
+
+def parseKind (k : String) : Option Kind :=
+  if k = "flag" then some .flag else if k = "value" then some .value
+  else if k = "pos1" then some (.pos .one) else if k = "pos?" then some (.pos .opt)
+  else if k = "pos*" then some (.pos .star) else if k = "pos+" then some (.pos .plus) else none
+
 def handle (s : DSt) (line : String) : DSt × String :=
   match splitWs line with
   | ["reset"] => (.empty, "ok")
-  | "new" :: dflt :: decls =>
-    match (if dflt = "-" then some none else (parseCps dflt).map some), parseStrs decls with
-    | some d, some ds =>
-      match build cfg d (ds.map parseDecl) with
-      | .ok st => (.ready st, "ok")
+  | "new" :: sw :: dflt :: decls =>
+    match parseSw sw, (if dflt = "-" then some none else (parseCps dflt).map some), parseStrs decls with
+    | some (noLog, sw), some d, some ds =>
+      match build cfg noLog d (ds.map parseDecl) with
+      | .ok st => (.ready { sw := sw, mode := .multi st }, "ok")
       | .error e => (.empty, "err " ++ e.name)
-    | _, _ => (s, "bad-op")
+    | _, _, _ => (s, "bad-op")
+  | ["single", sw] =>
+    match parseSw sw with
+    | some (noLog, sw) => (.ready { sw := sw, mode := .single (buildSingle cfg noLog) }, "ok")
+    | none => (s, "bad-op")
   | ["deps"] =>
     match s with
-    | .ready st =>
-      (s, " ".intercalate ("deps" :: st.parsers.map fun q =>
-        showCps q.name ++ ":" ++ "/".intercalate (q.deps.map showCps)))
+    | .ready ap =>
+      match ap.mode with
+      | .multi st =>
+        (s, " ".intercalate ("deps" :: st.parsers.map fun q =>
+          showCps q.name ++ ":" ++ "/".intercalate (q.deps.map showCps)))
+      | .single _ => (s, "deps")
     | .poisoned => (s, "poisoned")
     | .empty => (s, "no-parser")
   | "opt" :: target :: kind :: strs =>
     match s with
     | .empty => (s, "no-parser")
     | .poisoned => (s, "poisoned")
-    | .ready st =>
-      let k : Option Kind := if kind = "flag" then some .flag else if kind = "value" then some .value
-        else if kind = "pos" then some .pos else none
-      match (if target = "*" then some none else (parseCps target).map some), k, parseStrs strs with
+    | .ready ap =>
+      match (if target = "*" then some none else (parseCps target).map some), parseKind kind, parseStrs strs with
       | some tg, some k, some ss =>
-        if ss.isEmpty || !(ss.all (optStringOk (k == .pos))) || (k == .pos && ss.length != 1) then (s, "bad-op")
+        if ss.isEmpty || !(ss.all (optStringOk k.isPos)) || (k.isPos && ss.length != 1) then (s, "bad-op")
         else
-          match addOption st tg { strings := ss, kind := k, mutex := false } with
-          | .ok st' => (.ready st', "ok")
+          match ap.addOption tg { strings := ss, kind := k, mutex := false } with
+          | .ok ap' => (.ready ap', "ok")
           | .error (.exc e) => (s, "err " ++ e.name)      -- get_cmd_parser failed: nothing was touched
           | .error e => (.poisoned, showFail e)
       | _, _, _ => (s, "bad-op")
@@ -107,13 +135,34 @@ def handle (s : DSt) (line : String) : DSt × String :=
     match s with
     | .empty => (s, "no-parser")
     | .poisoned => (s, "poisoned")
-    | .ready st =>
+    | .ready ap =>
       match parseStrs toks with
       | some ts =>
         if !(ts.all tokOk) then (s, "bad-op")
-        else match parseArgs cfg st ts with
-          | .ok ns => (s, "ok " ++ showNs ns)
-          | .error e => (s, showFail e)
+        else (s, showRes (parseList cfg ap (ts.map some)).1)
+      | none => (s, "bad-op")
+  | "parse2" :: toks =>
+    match s with
+    | .empty => (s, "no-parser")
+    | .poisoned => (s, "poisoned")
+    | .ready ap =>
+      match parseStrs toks with
+      | some ts =>
+        if !(ts.all tokOk) then (s, "bad-op")
+        else
+          let r1 := parseList cfg ap (ts.map some)
+          let r2 := parseList cfg ap r1.2
+          (s, showRes r1.1 ++ " | " ++ showRes r2.1)
+      | none => (s, "bad-op")
+  | "lst" :: toks =>
+    match s with
+    | .empty => (s, "no-parser")
+    | .poisoned => (s, "poisoned")
+    | .ready ap =>
+      match parseStrs toks with
+      | some ts =>
+        if !(ts.all tokOk) then (s, "bad-op")
+        else (s, showList (parseList cfg ap (ts.map some)).2)
       | none => (s, "bad-op")
   | _ => (s, "bad-op")
 
